@@ -52,7 +52,7 @@ ASSUMPTIONS = [
 BOUNDS = {
     'quick': {'scopes_R': [0, 1, 2], 'rules_per_scope_K': [1, 2],
               'query before the update': 'states with <= 2 rules (thorough: '
-                                         'all)',
+                                         '<= 3 rules)',
               'load_list_length': [0, 1, 2, 3],
               'histories': 'any length over states within the bound (one '
                            'inductive step from an arbitrary valid state)'},
@@ -438,7 +438,8 @@ def jobs(tier, seed):
         for sh in range(2 ** D):
           js.append(Job('step:' + ','.join(map(str, shape)) + f':shard{sh}',
                         job_step, {'shape': list(shape), 'shard': (sh, D),
-                                   'prequery': tier == 'thorough'}))
+                                   'prequery': tier == 'thorough'
+                                   and sum(shape) <= 3}))
       else:
         js.append(Job('step:' + ','.join(map(str, shape)), job_step,
                       {'shape': list(shape)}))
